@@ -2,7 +2,8 @@
 import re
 
 from .. import lib, mir
-from ..mir import render, strip_generics
+from .. import lib_proto as P
+from ..mir import strip_generics
 
 EXPLANATION = ("Behaviour::on_connection_handler_event, per handler::Event arm (9): the pending-set removal for the arm's own request id "
                "happens exactly once and, whenever it reports `removed`, exactly one outcome event of the arm's kind is queued (never a "
@@ -23,7 +24,10 @@ ASSUMPTIONS = ["interleaving of swarm and handler events (e.g. a handler event a
 RR = "libp2p_request_response"
 EV = r"^libp2p_request_response::Event$"
 HEV = r"^libp2p_request_response::handler::Event$"
-QUEUE = "self.pending_events"
+BADT = r"^libp2p_request_response::Behaviour$"
+CADT = r"^libp2p_request_response::Connection$"
+HADT = r"^libp2p_request_response::handler::Handler$"
+MADT = r"^libp2p_request_response::handler::OutboundMessage$"
 
 SELFTEST = [
     {"mutation": "seeded/C45: OutboundUnsupportedProtocols arm no longer calls remove_pending_outbound_response", "caught_by": "arm/OutboundUnsupportedProtocols: pending-set removal exactly once"},
@@ -44,21 +48,21 @@ SELFTEST = [
     {"mutation": "on_fully_negotiated_outbound: failed try_push reports nothing", "caught_by": "negotiated-outbound/a rejected worker yields exactly one OutboundStreamFailed, an accepted one none"},
 ]
 
-# arm -> (pending set, request-id field of the handler event, (Event variant, sub-adt, sub-variant), conditional?)
+# arm -> (pending set, request-id field of the handler event, (Event variant, sub-variant), conditional?)
 ARMS = {
-    "Response": ("outbound", "request_id", ("Message", "Message", "Response"), False),
-    "OutboundTimeout": ("outbound", "0", ("OutboundFailure", "OutboundFailure", "Timeout"), False),
-    "OutboundUnsupportedProtocols": ("outbound", "0", ("OutboundFailure", "OutboundFailure", "UnsupportedProtocols"), False),
-    "OutboundStreamFailed": ("outbound", "request_id", ("OutboundFailure", "OutboundFailure", "Io"), False),
-    "ResponseSent": ("inbound", "0", ("ResponseSent", None, None), False),
-    "ResponseOmission": ("inbound", "0", ("InboundFailure", "InboundFailure", "ResponseOmission"), False),
-    "InboundTimeout": ("inbound", "0", ("InboundFailure", "InboundFailure", "Timeout"), True),
-    "InboundStreamFailed": ("inbound", "request_id", ("InboundFailure", "InboundFailure", "Io"), True),
+    "Response": ("outbound", "request_id", ("Message", "Response"), False),
+    "OutboundTimeout": ("outbound", "0", ("OutboundFailure", "Timeout"), False),
+    "OutboundUnsupportedProtocols": ("outbound", "0", ("OutboundFailure", "UnsupportedProtocols"), False),
+    "OutboundStreamFailed": ("outbound", "request_id", ("OutboundFailure", "Io"), False),
+    "ResponseSent": ("inbound", "0", ("ResponseSent", None), False),
+    "ResponseOmission": ("inbound", "0", ("InboundFailure", "ResponseOmission"), False),
+    "InboundTimeout": ("inbound", "0", ("InboundFailure", "Timeout"), True),
+    "InboundStreamFailed": ("inbound", "request_id", ("InboundFailure", "Io"), True),
 }
 
 
-def outcome_of(e, adt_pat=EV):
-    """(variant, sub-variant, rendered request_id) of the first Event aggregate inside expression e, or None."""
+def outcome_of(N, e, adt_pat=EV):
+    """(variant, sub-variant, normalised request id, {field: normalised value}) of the first Event aggregate inside e, or None."""
     rx = re.compile(adt_pat)
     for s in mir.walk(e):
         if s[0] == "agg" and s[1] == "adt" and rx.search(strip_generics(s[2])):
@@ -71,54 +75,33 @@ def outcome_of(e, adt_pat=EV):
                     sub = x[3]
                     if key == "message":
                         rid = dict(x[4]).get("request_id")
-            return (s[3], sub, render(rid) if rid is not None else None)
+            return (s[3], sub, N.r(rid) if rid is not None else None, {k: N.r(v) for k, v in f.items() if v[0] != "agg"})
     return None
 
 
-def queue_pushes(b, queue=QUEUE, adt_pat=EV):
+def queue_pushes(b, N, queue, adt_pat=EV):
     """[(site, outcome)] for VecDeque::push_back(queue, ..Event..) sites."""
     out = []
     for s in b.call_sites(r"VecDeque::push_back$"):
         e = b.site_expr(s)
-        if render(e[2][0]) != queue:
+        if N.r(e[2][0]) != queue:
             continue
-        o = outcome_of(e[2][1], adt_pat)
+        o = outcome_of(N, e[2][1], adt_pat)
         if o is not None:
             out.append((s, o))
     return out
 
 
-def truth_edges(b, site, value):
-    """CFG edges on which the bool result of the call at `site` is known to be `value` (looks through `!`)."""
-    out = set()
-    for bi in b.live:
-        info = b.switch_info(bi)
-        if not info:
-            continue
-        cond, labs = info
-        neg = False
-        while cond[0] == "un" and cond[1] == "Not":
-            cond = cond[2]
-            neg = not neg
-        if not (cond[0] == "call" and cond[3] == site.bb):
-            continue
-        want = "true" if (value != neg) else "false"
-        for tgt, ls in labs.items():
-            if ls == {want}:
-                out.add((bi, tgt))
-    return out
-
-
 def loop_of(b, into_iter_site):
     """(next_site, some_target, none_target) of the `for` loop fed by the into_iter call at `into_iter_site`."""
-    for s in b.call_sites(r"Iterator>::next$"):
+    for s in b.call_sites(r"Iterator>::next$|Iterator::next$"):
         a0 = b.site_expr(s)[2][0]
         if a0[0] != "local":
             continue
         init = b.init_expr(a0[1])
         if init[0] == "call" and init[3] == into_iter_site.bb:
-            some = [t for _, t in lib.switch_edges_on_site(b, s, {"Some"})]
-            none = [t for _, t in lib.switch_edges_on_site(b, s, {"None"})]
+            some = P.targets(P.variant_edges(b, P.is_call_at(s), {"Some"}))
+            none = P.targets(P.variant_edges(b, P.is_call_at(s), {"None"}))
             if len(some) == 1 and len(none) == 1:
                 return s, some[0], none[0]
     return None
@@ -131,57 +114,121 @@ def per_element(ctx, rule, inst, b, loop, marker_bbs, desc, where=""):
     ctx.ob(rule, inst, got == (1, 1), where or nxt.loc(), "%s: per drained element %s (expected (1, 1))" % (desc, got))
 
 
+def elem_of(b, N, loop):
+    """Normalised text of the loop element (`next(iter)@+`)."""
+    return N.site(loop[0]) + "@+"
+
+
+def removes_from(prog, fb, field, depth=0):
+    """Body fb (or one of its closures) removes an element from a set stored in `.field`."""
+    for c in [fb] + _descendants(prog, fb):
+        for s in c.call_sites(r"HashSet::remove$|HashSet::take$"):
+            a0 = c.site_expr(s)[2][0]
+            if a0[0] == "field" and a0[2] == field:
+                return True
+    return False
+
+
+def removal_sites(prog, h, field):
+    """Call sites in h that remove from the pending set `field`: directly, or through a crate function that does (one level)."""
+    out = []
+    for s in h.call_sites():
+        name = strip_generics(h.call_name(s.term))
+        if re.search(r"HashSet::(remove|take)$", name):
+            a0 = h.site_expr(s)[2][0]
+            if a0[0] == "field" and a0[2] == field:
+                out.append(s)
+        elif name.startswith("libp2p_request_response::"):
+            fb = prog.find(RR, "^" + re.escape(name) + "$")
+            if len(fb) == 1 and removes_from(prog, fb[0], field):
+                out.append(s)
+    return out
+
+
 def check(ctx):
-    prog = ctx.prog
-    # ================================================================= on_connection_handler_event
+    _check(ctx, ctx.prog)
+
+
+def _check(ctx, prog):
+    # ---- private fields by role
+    Q = "self." + P.field_by_type(prog, RR, BADT, r"^std::collections::VecDeque<libp2p_swarm::ToSwarm<")
+    F_CONNECTED = P.field_by_type(prog, RR, BADT, r"^std::collections::HashMap<libp2p_core::PeerId, smallvec::SmallVec<\[Connection")
+    F_PENDREQ = P.field_by_type(prog, RR, BADT, r"^std::collections::HashMap<libp2p_core::PeerId, smallvec::SmallVec<\[handler::OutboundMessage")
+    F_NEXTOUT = P.field_by_type(prog, RR, BADT, r"^OutboundRequestId$")
+    F_NEXTIN = P.field_by_type(prog, RR, BADT, r"^std::sync::Arc<std::sync::atomic::Atomic")
+    CONNECTED, PENDREQ = "self." + F_CONNECTED, "self." + F_PENDREQ
+    C_ID = P.field_by_type(prog, RR, CADT, r"ConnectionId$")
+    SETS = {"outbound": P.field_by_type(prog, RR, CADT, r"HashSet<OutboundRequestId>"), "inbound": P.field_by_type(prog, RR, CADT, r"HashSet<InboundRequestId>")}
+    M_ID = P.field_by_type(prog, RR, MADT, r"^OutboundRequestId$")
+    HQ = "self." + P.field_by_type(prog, RR, HADT, r"^std::collections::VecDeque<handler::Event<")
+    H_WORK = "self." + P.field_by_type(prog, RR, HADT, r"FuturesMap<")
+    H_RECV = "self." + P.field_by_type(prog, RR, HADT, r"mpsc::Receiver<")
+    H_INID = P.field_by_type(prog, RR, HADT, r"^std::sync::Arc<std::sync::atomic::Atomic")
+    obev = ctx.body(RR, r"<handler::Handler as libp2p_swarm::ConnectionHandler>::on_behaviour_event$")
+    OB = P.Norm(obev)
+    pb = [s for s in obev.call_sites(r"VecDeque::push_back$") if OB.r(obev.site_expr(s)[2][1]) == "$2"]
+    msgq = [f["n"] for v in prog.adt(RR, HADT)["variants"] for f in v["fields"] if re.search(r"^std::collections::VecDeque<handler::OutboundMessage<", f["ty"])]
+    if len(pb) != 1 or len(msgq) != 2:
+        raise mir.RuleError("handler request queues not identified: %d pushes, fields %s" % (len(pb), msgq))
+    a0 = obev.site_expr(pb[0])[2][0]
+    F_POUT = a0[2] if a0[0] == "field" else None
+    if F_POUT not in msgq:
+        raise mir.RuleError("on_behaviour_event does not push into a request queue")
+    H_POUT, H_REQ = "self." + F_POUT, "self." + [f for f in msgq if f != F_POUT][0]
+    # ================================================================= on_connection_handler_event(self, peer = $2, connection_id = $3, event = $4)
     h = ctx.body(RR, r"<Behaviour as libp2p_swarm::NetworkBehaviour>::on_connection_handler_event$")
+    N = P.Norm(h)
     rets = h.return_blocks()
-    pushes = queue_pushes(h)
+    pushes = queue_pushes(h, N, Q)
     ctx.floor("arm", "outcome pushes in on_connection_handler_event", pushes, 9)
     all_push_bbs = lib.bbs([s for s, _ in pushes])
-    sw = h.switch_info(0)
-    arms_seen = set()
-    if sw and render(sw[0]) == "discr(event)":
-        for ls in sw[1].values():
-            arms_seen |= set(ls)
-    ctx.ob("arm", "floor:handler::Event arms", arms_seen == set(ARMS) | {"Request"}, nontrivial=False,
-           msg="arms of the dispatch: %s" % sorted(arms_seen))
-    for arm, (side, idf, (evv, _, subv), conditional) in ARMS.items():
-        ents = lib.arm_entry(h, r"^discr\(event\)$", arm)
-        if len(ents) != 1:
-            ctx.ob("arm", "%s: arm entry" % arm, False, msg="arm not found: %s" % ents)
+    entries = {}
+    for bi in h.live:
+        info = h.switch_info(bi)
+        if info and N.r(info[0]) == "discr($4)":
+            for tgt, ls in info[1].items():
+                for l in ls:
+                    entries[l] = tgt
+    ctx.ob("arm", "floor:handler::Event arms", set(entries) == set(ARMS) | {"Request"}, nontrivial=False, msg="arms of the dispatch: %s" % sorted(entries))
+    for arm, (side, idf, (evv, subv), conditional) in ARMS.items():
+        if arm not in entries:
+            ctx.ob("arm", "%s: arm entry" % arm, False, msg="arm not found")
             continue
-        ent = ents[0][1]
+        ent = entries[arm]
         region = h.reachable([ent])
-        rid = "event@%s.%s" % (arm, idf)
-        rem = [s for s in h.call_sites(r"Behaviour::remove_pending_%s_response$" % side) if s.bb in region]
-        wrong = [s for s in h.call_sites(r"Behaviour::remove_pending_%s_response$" % ("inbound" if side == "outbound" else "outbound")) if s.bb in region]
+        rid = "$4@%s" % arm if idf == "0" else "$4@%s.%s" % (arm, idf)
+        rem = [s for s in removal_sites(prog, h, SETS[side]) if s.bb in region]
+        wrong = [s for s in removal_sites(prog, h, SETS["inbound" if side == "outbound" else "outbound"]) if s.bb in region]
         got = lib.count_range(h, [ent], rets, lib.bbs(rem))
-        ctx.ob("arm", "%s: pending-set removal exactly once" % arm, got == (1, 1) and not wrong, rem[0].loc() if rem else "%s:%d" % (h.file, h.line),
-               "remove_pending_%s_response on all paths of the arm: %s (expected (1, 1)); calls on the other set: %d" % (side, got, len(wrong)))
+        # the removal may sit behind a connection lookup (`match get_connection_mut { Some(c) => c.set.remove(id), None => false }`):
+        # at most one per path, and every outcome of the arm is preceded by it (checked below)
+        ctx.ob("arm", "%s: pending-set removal exactly once" % arm, bool(rem) and got is not None and got[1] == 1 and not wrong, rem[0].loc() if rem else "%s:%d" % (h.file, h.line),
+               "removals from the pending %s set on the paths of the arm: %s (expected at most one per path, at least one site); removals from the other set: %d" % (side, got, len(wrong)))
         for s in rem:
-            a = [render(x) for x in h.site_expr(s)[2]]
-            ctx.ob("arm", "%s: removal is keyed by this event's peer/connection/request id" % arm, a[1:] == ["peer", "connection_id", rid], s.loc(), str(a[1:]))
+            a = [N.r(x) for x in h.site_expr(s)[2]]
+            ctx.ob("arm", "%s: removal is keyed by this event's peer/connection/request id" % arm, rid in a and (("$2" in a and "$3" in a) or any("$2" in x and "$3" in x for x in a)), s.loc(), str(a[1:]))
         mine = [(s, o) for s, o in pushes if s.bb in region]
         right = [s for s, o in mine if o[0] == evv and o[1] == subv]
         ctx.ob("arm", "%s: only its own outcome kind" % arm, len(right) == len(mine) and len(mine) >= 1, mine[0][0].loc() if mine else "",
                "outcome events queued in the arm: %s (expected only %s/%s)" % ([o[:2] for _, o in mine], evv, subv))
         for s, o in mine:
             ctx.ob("arm", "%s: outcome carries this event's request id" % arm, o[2] == rid, s.loc(), "request_id = %s" % o[2])
-            pe = render(h.site_expr(s))
-            ctx.ob("arm", "%s: outcome carries this event's peer and connection" % arm, "peer: peer, connection_id: connection_id" in pe, s.loc(), pe[90:200])
-        # whenever removed: exactly one outcome; never two
+            ctx.ob("arm", "%s: outcome carries this event's peer and connection" % arm, (o[3].get("peer"), o[3].get("connection_id")) == ("$2", "$3"), s.loc(), str(o[3]))
         false_edges, true_edges = set(), set()
         for s in rem:
-            false_edges |= truth_edges(h, s, False)
-            true_edges |= truth_edges(h, s, True)
+            false_edges |= {(b_, t_) for b_, t_ in P.truth_edges(h, P.is_call_at(s), False, ent) if b_ in region}
+            true_edges |= {(b_, t_) for b_, t_ in P.truth_edges(h, P.is_call_at(s), True, ent) if b_ in region}
+        for s, _ in mine:
+            ok = bool(rem) and P.passes_nodes(h, [ent], s.bb, lib.bbs(rem))
+            ctx.ob("arm", "%s: the outcome is preceded by the removal" % arm, ok, s.loc(), "every path of the arm to the outcome push passes the pending-set removal" if ok else
+                   "an outcome is queued on a path that did not remove the id from the pending set (a later ConnectionClosed would report it again)")
         got = lib.count_range(h, [ent], rets, lib.bbs(right), blocked_edges=false_edges)
         ctx.ob("arm", "%s: removed => exactly one outcome" % arm, got == (1, 1), right[0].loc() if right else "",
                "outcome pushes on every path of the arm on which the id was removed: %s (expected (1, 1))" % (got,))
         got = lib.count_range(h, [ent], rets, all_push_bbs)
         ctx.ob("arm", "%s: at most one outcome" % arm, got is not None and got[1] <= 1, msg="outcome pushes on all paths: %s" % (got,))
         if conditional:
-            ftg = [t for _, t in false_edges]
+            ftg = P.targets(false_edges)
             got = lib.count_range(h, ftg, rets, all_push_bbs) if ftg else None
             ctx.ob("arm", "%s: nothing queued when nothing was removed" % arm, got == (0, 0), rem[0].loc() if rem else "",
                    "outcome pushes on the not-removed edge: %s (expected (0, 0))" % (got,))
@@ -190,151 +237,173 @@ def check(ctx):
                 ctx.ob("arm", "%s: outcome only after the id was removed" % arm, ok, s.loc(),
                        "every path of the arm to the push passes the `removed == true` edge" if ok else "a path reaches the push without `removed` being known true")
     # Request arm
-    ents = lib.arm_entry(h, r"^discr\(event\)$", "Request")
-    if len(ents) == 1:
-        ent = ents[0][1]
+    if "Request" in entries:
+        ent = entries["Request"]
         region = h.reachable([ent])
-        gc = [s for s in h.call_sites(r"Behaviour::get_connection_mut$") if s.bb in region]
-        ctx.floor("arm", "Request: get_connection_mut", gc, 1)
-        ins = [s for s in h.call_sites(r"HashSet::insert$") if s.bb in region and ".pending_inbound_responses" in render(h.site_expr(s)[2][0])]
+        ins = [s for s in h.call_sites(r"HashSet::insert$") if s.bb in region and (lambda a: a[0] == "field" and a[2] == SETS["inbound"])(h.site_expr(s)[2][0])]
+        ctx.floor("arm", "Request: insert into the pending inbound set", ins, 1)
         mine = [(s, o) for s, o in pushes if s.bb in region]
         ctx.ob("arm", "Request: only Message::Request is queued", [o[:2] for _, o in mine] == [("Message", "Request")], msg=str([o[:2] for _, o in mine]))
-        for g in gc[:1]:
-            a = [render(x) for x in h.site_expr(g)[2]]
-            ctx.ob("arm", "Request: connection looked up by this event's peer/connection", a[1:] == ["peer", "connection_id"], g.loc(), str(a))
-            some = [t for _, t in lib.switch_edges_on_site(h, g, {"Some"})]
-            none = [t for _, t in lib.switch_edges_on_site(h, g, {"None"})]
+        for s in ins[:1]:
+            conn = h.site_expr(s)[2][0][1]
+            look = conn
+            while look[0] in ("field", "downcast"):
+                look = look[1]
+            look = P._untry(look)
+            if P.call_is(look, r"^std::(option::Option|result::Result)::(expect|unwrap)$"):
+                look = look[2][0]
+            lr = N.r(look)
+            ctx.ob("arm", "Request: connection looked up by this event's peer/connection", look[0] == "call" and "$2" in lr and "$3" in lr, s.loc(), lr[:160])
+            some = P.targets(P.outcome_edges(h, lambda y: y[0] == "call" and look[0] == "call" and y[3] == look[3], True))
+            none = P.targets(P.outcome_edges(h, lambda y: y[0] == "call" and look[0] == "call" and y[3] == look[3], False))
             gi = lib.count_range(h, some, rets, lib.bbs(ins)) if some else None
-            gp = lib.count_range(h, some, rets, lib.bbs([s for s, _ in mine])) if some else None
-            ctx.ob("arm", "Request: delivered <=> tracked in pending_inbound_responses", gi == (1, 1) and gp == (1, 1), g.loc(),
+            gp = lib.count_range(h, some, rets, lib.bbs([x for x, _ in mine])) if some else None
+            ctx.ob("arm", "Request: delivered <=> tracked in pending_inbound_responses", gi == (1, 1) and gp == (1, 1), s.loc(),
                    "on the known-connection edge: insert %s, delivery %s (expected (1, 1) each)" % (gi, gp))
             gn = lib.count_range(h, none, rets, all_push_bbs) if none else None
-            ctx.ob("arm", "Request: not delivered for an unknown connection", gn == (0, 0), g.loc(), "pushes on the None edge: %s" % (gn,))
+            ctx.ob("arm", "Request: not delivered for an unknown connection", gn == (0, 0), s.loc(), "pushes on the None edge: %s" % (gn,))
         for s in ins:
             e = h.site_expr(s)
-            ctx.ob("arm", "Request: tracked id is the delivered id", render(e[2][1]) == "event@Request.request_id" and "get_connection_mut(self, peer, connection_id)@Some.0" in render(e[2][0]), s.loc(), render(e)[-120:])
+            ctx.ob("arm", "Request: tracked id is the delivered id", N.r(e[2][1]) == "$4@Request.request_id", s.loc(), N.r(e)[-120:])
         for s, o in mine:
-            ctx.ob("arm", "Request: delivered id is the handler's id", o[2] == "event@Request.request_id", s.loc(), str(o))
+            ctx.ob("arm", "Request: delivered id is the handler's id", o[2] == "$4@Request.request_id", s.loc(), str(o[:3]))
     else:
-        ctx.ob("arm", "Request: arm entry", False, msg=str(ents))
+        ctx.ob("arm", "Request: arm entry", False, msg=str(sorted(entries)))
 
-    # ================================================================= removal helpers
+    # ================================================================= removal helpers (when the removal is delegated)
+    helpers = set()
     for side in ("outbound", "inbound"):
-        b = ctx.body(RR, r"^libp2p_request_response::Behaviour::remove_pending_%s_response$" % side)
-        d = b.defs.get(0, [])
-        r = render(b.site_expr(mir.Site(b, d[0][1], d[0][2]))) if len(d) == 1 else ""
-        ctx.ob("helper", "remove_pending_%s_response = get_connection_mut(..).map(remove).unwrap_or(false)" % side,
-               re.match(r"^std::option::Option::unwrap_or\(std::option::Option::map\(libp2p_request_response::Behaviour::get_connection_mut\(self, peer, connection_id\), closure:.*\[request\]\), 0\)$", r) is not None,
-               "%s:%d" % (b.file, b.line), r[:200])
-        cl = [c for c in prog.children(b) if c.kind == "closure"]
-        ok = False
-        txt = ""
-        if len(cl) == 1:
-            ctx.use(cl[0])
-            d = cl[0].defs.get(0, [])
-            txt = render(cl[0].site_expr(mir.Site(cl[0], d[0][1], d[0][2]))) if len(d) == 1 else ""
-            ok = txt == "std::collections::HashSet::remove(c.pending_%s_responses, ^request)" % side
-        ctx.ob("helper", "remove_pending_%s_response removes from pending_%s_responses" % (side, side), ok, "%s:%d" % (b.file, b.line), txt)
+        for s in removal_sites(prog, h, SETS[side]):
+            name = strip_generics(h.call_name(s.term))
+            if name.startswith("libp2p_request_response::"):
+                helpers.add((side, name))
+    for side, name in sorted(helpers):
+        b = ctx.body(RR, "^" + re.escape(name) + "$")
+        BN = P.Norm(b)
+        # helper(self, peer = $2, connection_id = $3, request = $4): the set of the connection selected by (peer, connection) loses `request`; false when the connection is unknown
+        rs = P.ret_exprs(b)
+        r = BN.r(rs[0][1]) if len(rs) == 1 else ""
+        ok = re.match(r"^std::option::Option::unwrap_or\(std::option::Option::map\(libp2p_request_response::Behaviour::get_connection_mut\(self, \$2, \$3\), closure\[\$4\]\), 0\)$", r) is not None
+        ctx.ob("helper", "%s = get_connection_mut(..).map(remove).unwrap_or(false)" % name.split("::")[-1], ok, "%s:%d" % (b.file, b.line), r[:200])
+        cs = P.closures_in(prog, b, rs[0][1]) if rs else []
+        txt = [P.Norm(c).r(x) for _, c in cs[:1] for _, x in P.ret_exprs(c)]
+        ctx.ob("helper", "%s removes from the pending %s set" % (name.split("::")[-1], side), txt == ["std::collections::HashSet::remove($2.%s, ^0)" % SETS[side]], "%s:%d" % (b.file, b.line), str(txt))
+    ctx.ob("helper", "floor:removal helpers", len(helpers) in (0, 2), nontrivial=False, msg=str(sorted(helpers)))
     g = ctx.body(RR, r"^libp2p_request_response::Behaviour::get_connection_mut$")
-    txt = " ".join(render(c.site_expr(s)) for c in [g] + _descendants(prog, g) for s in c.call_sites())
-    ctx.ob("helper", "get_connection_mut selects by peer and connection id", "HashMap::get_mut(self.connected, peer)" in txt and
-           "<libp2p_swarm::ConnectionId as std::cmp::PartialEq>::eq(c.id, ^connection_id)" in txt and "Iterator>::find(" in txt, "%s:%d" % (g.file, g.line), txt[:160])
+    txt = []
+    eqs = set()
+    for c in [g] + _descendants(prog, g):
+        CN = P.Norm(c)
+        for s in c.call_sites():
+            txt.append(CN.site(s))
+        for _, x in P.ret_exprs(c):
+            cm = P.cmpnf(x)
+            if cm and cm[0] == "Eq":
+                eqs.add(tuple(sorted([P.rr(prog, c, cm[1]), P.rr(prog, c, cm[2])])))
+    ctx.ob("helper", "get_connection_mut selects by peer and connection id", any(t_ == "std::collections::HashMap::get_mut(%s, $2)" % CONNECTED for t_ in txt) and
+           ("$2.%s" % C_ID, "$3") in eqs and any("Iterator>::find(" in t_ or "Iterator::find(" in t_ for t_ in txt), "%s:%d" % (g.file, g.line), str(sorted(eqs)))
 
-    # ================================================================= on_connection_closed
+    # ================================================================= on_connection_closed(self, closed = $2)
     c = ctx.body(RR, r"^libp2p_request_response::Behaviour::on_connection_closed$")
+    CN = P.Norm(c)
     crets = c.return_blocks()
-    cp = queue_pushes(c)
+    cp = queue_pushes(c, CN, Q)
     ctx.floor("closed", "outcome pushes in on_connection_closed", cp, 2, exact=True)
-    for fld, want in (("pending_inbound_responses", ("InboundFailure", "ConnectionClosed")), ("pending_outbound_responses", ("OutboundFailure", "ConnectionClosed"))):
-        its = [s for s in c.call_sites(r"IntoIterator>::into_iter$") if render(c.site_expr(s)[2][0]).endswith("." + fld)]
-        ctx.floor("closed", "drain of " + fld, its, 1, exact=True)
+    for side, want in (("inbound", ("InboundFailure", "ConnectionClosed")), ("outbound", ("OutboundFailure", "ConnectionClosed"))):
+        fld = SETS[side]
+        its = [s for s in c.call_sites(r"IntoIterator>::into_iter$|HashSet::(drain|into_iter|iter)$") if (lambda a: a[0] == "field" and a[2] == fld)(c.site_expr(s)[2][0])]
+        ctx.floor("closed", "drain of the pending %s set" % side, its, 1, exact=True)
         for it in its:
             got = lib.count_range(c, [0], crets, [it.bb])
-            ctx.ob("closed", "%s drained on every path" % fld, got == (1, 1), it.loc(), "into_iter on all paths: %s" % (got,))
+            ctx.ob("closed", "pending %s set drained on every path" % side, got == (1, 1), it.loc(), "iteration on all paths: %s" % (got,))
             base = c.site_expr(it)[2][0]
-            removed = False
+            removed = any(P.call_is(x, r"(SmallVec|Vec)::(remove|swap_remove)$") for x in mir.walk(base))
             for x in mir.walk(base):
-                if x[0] == "closure":
-                    cb = prog.closure_body(c, x[1])
-                    if cb.call_sites(r"(SmallVec|Vec)::(remove|swap_remove)$"):
-                        removed = True
-            ctx.ob("closed", "%s: the drained connection was removed from `connected`" % fld, removed, it.loc(),
+                if x[0] == "closure" and prog.closure_body(c, x[1]).call_sites(r"(SmallVec|Vec)::(remove|swap_remove)$"):
+                    removed = True
+            ctx.ob("closed", "pending %s set: the drained connection was removed from `connected`" % side, removed, it.loc(),
                    "the set belongs to the value returned by connections.remove(position)")
             lp = loop_of(c, it)
             if lp is None:
-                ctx.ob("closed", "%s: loop found" % fld, False, it.loc(), "for-loop over the set not recognised")
+                ctx.ob("closed", "pending %s set: loop found" % side, False, it.loc(), "for-loop over the set not recognised")
                 continue
             inloop = [(s, o) for s, o in cp if s.bb in c.reachable([lp[1]], stop_nodes=[lp[0].bb])]
-            ctx.ob("closed", "%s -> %s::%s" % (fld, want[0], want[1]), [o[:2] for _, o in inloop] == [want], lp[0].loc(), str([o[:2] for _, o in inloop]))
-            per_element(ctx, "closed", "%s: one failure per pending id" % fld, c, lp, lib.bbs([s for s, _ in inloop]), "ConnectionClosed failure")
+            ctx.ob("closed", "pending %s set -> %s::%s" % (side, want[0], want[1]), [o[:2] for _, o in inloop] == [want], lp[0].loc(), str([o[:2] for _, o in inloop]))
+            per_element(ctx, "closed", "pending %s set: one failure per pending id" % side, c, lp, lib.bbs([s for s, _ in inloop]), "ConnectionClosed failure")
             for s, o in inloop:
-                ctx.ob("closed", "%s: failure carries the drained id" % fld, o[2] is not None and o[2].endswith("Iterator>::next(iter)@Some.0"), s.loc(), str(o[2]))
-                ctx.ob("closed", "%s: failure carries the closed peer/connection" % fld, "peer: arg2.peer_id, connection_id: arg2.connection_id" in render(c.site_expr(s)), s.loc(), "")
-    pos = c.call_sites(r"Iterator>::position$")
+                ctx.ob("closed", "pending %s set: failure carries the drained id" % side, o[2] == elem_of(c, CN, lp), s.loc(), str(o[2]))
+                ctx.ob("closed", "pending %s set: failure carries the closed peer/connection" % side, (o[3].get("peer"), o[3].get("connection_id")) == ("$2.peer_id", "$2.connection_id"), s.loc(), str(o[3]))
+    pos = c.call_sites(r"Iterator>::position$|Iterator::position$")
     ok = False
     for s in pos:
-        cb = lib.closure_of(prog, c, c.site_expr(s))
-        if cb is not None:
-            d = cb.defs.get(0, [])
-            ok = len(d) == 1 and render(cb.site_expr(mir.Site(cb, d[0][1], d[0][2]))) == "<libp2p_swarm::ConnectionId as std::cmp::PartialEq>::eq(c.id, ^connection_id)"
+        for _, cb in P.closures_in(prog, c, c.site_expr(s))[:1]:
+            for _, x in P.ret_exprs(cb):
+                cm = P.cmpnf(x)
+                ok = cm is not None and cm[0] == "Eq" and sorted([P.Norm(cb).r(cm[1]), P.rr(prog, cb, cm[2])]) == sorted(["$2.%s" % C_ID, "$2.connection_id"])
     ctx.ob("closed", "the removed connection is the closed one (c.id == connection_id)", ok, pos[0].loc() if pos else "", "position(|c| c.id == connection_id)")
 
-    # ================================================================= on_dial_failure
+    # ================================================================= on_dial_failure(self, failure = $2)
     d = ctx.body(RR, r"^libp2p_request_response::Behaviour::on_dial_failure$")
-    dp = queue_pushes(d)
+    DN = P.Norm(d)
+    dp = queue_pushes(d, DN, Q)
     ctx.floor("dial-failure", "outcome pushes in on_dial_failure", dp, 1, exact=True)
-    rm = [s for s in d.call_sites(r"HashMap::remove$") if render(d.site_expr(s)[2][0]) == "self.pending_outbound_requests"]
+    rm = [s for s in d.call_sites(r"HashMap::remove$") if DN.r(d.site_expr(s)[2][0]) == PENDREQ]
     ctx.floor("dial-failure", "pending_outbound_requests.remove", rm, 1, exact=True)
-    its = d.call_sites(r"IntoIterator>::into_iter$")
+    TAKEN = DN.site(rm[0]) + "@+" if rm else "?"
+    its = [s for s in d.call_sites(r"IntoIterator>::into_iter$") if "." + F_PENDREQ in DN.site(s)]
     for it in its:
-        src = render(d.site_expr(it)[2][0])
-        ctx.ob("dial-failure", "queued requests are taken (HashMap::remove)", src.startswith("std::collections::HashMap::remove(self.pending_outbound_requests, arg2.peer_id@Some.0)@Some.0"), it.loc(), src[:140])
+        src = DN.r(d.site_expr(it)[2][0])
+        ctx.ob("dial-failure", "queued requests are taken (HashMap::remove)", src == TAKEN and DN.r(d.site_expr(rm[0])[2][1]) == "$2.peer_id@+", it.loc(), src[:140])
         lp = loop_of(d, it)
         if lp is None:
             ctx.ob("dial-failure", "loop found", False, it.loc())
             continue
         per_element(ctx, "dial-failure", "one DialFailure outcome per queued request", d, lp, lib.bbs([s for s, _ in dp]), "OutboundFailure::DialFailure")
+        for s, o in dp:
+            ctx.ob("dial-failure", "outcome carries the queued request's id and the dialled peer", o[2] == elem_of(d, DN, lp) + "." + M_ID and o[3].get("peer") == "$2.peer_id@+", s.loc(), str(o[2:]))
     ctx.ob("dial-failure", "floor:loop over the removed requests", len(its) == 1, nontrivial=False, msg="%d loops" % len(its))
     for s in rm:
-        some = [t for _, t in lib.switch_edges_on_site(d, s, {"Some"})]
+        some = P.targets(P.outcome_edges(d, P.is_call_at(s), True))
         got = lib.count_range(d, some, d.return_blocks(), lib.bbs(its)) if some else None
         ctx.ob("dial-failure", "removed requests are always drained", got == (1, 1), s.loc(), "loop entered on the Some edge: %s" % (got,))
     for s, o in dp:
         ctx.ob("dial-failure", "outcome kind", o[:2] == ("OutboundFailure", "DialFailure"), s.loc(), str(o[:2]))
-        ctx.ob("dial-failure", "outcome carries the queued request's id and the dialled peer", o[2] is not None and o[2].endswith("Iterator>::next(iter)@Some.0.request_id") and
-               "peer: arg2.peer_id@Some.0," in render(d.site_expr(s)), s.loc(), str(o[2]))
 
-    # ================================================================= preload_new_handler
+    # ================================================================= preload_new_handler(self, handler = $2, peer = $3, connection_id = $4, remote_address = $5)
     p = ctx.body(RR, r"^libp2p_request_response::Behaviour::preload_new_handler$")
+    PN = P.Norm(p, ids=True)
     prets = p.return_blocks()
-    rm = [s for s in p.call_sites(r"HashMap::remove$") if render(p.site_expr(s)) == "std::collections::HashMap::remove(self.pending_outbound_requests, peer)"]
+    rm = [s for s in p.call_sites(r"HashMap::remove$") if PN.site(s) == "std::collections::HashMap::remove(%s, $3)" % PENDREQ]
     ctx.floor("preload", "pending_outbound_requests.remove(peer)", rm, 1, exact=True)
-    its = p.call_sites(r"IntoIterator>::into_iter$")
-    ins = [s for s in p.call_sites(r"HashSet::insert$") if render(p.site_expr(s)[2][0]) == "connection.pending_outbound_responses"]
+    its = [s for s in p.call_sites(r"IntoIterator>::into_iter$") if "." + F_PENDREQ in PN.site(s)]
+    ins = [s for s in p.call_sites(r"HashSet::insert$") if (lambda a: a[0] == "field" and a[2] == SETS["outbound"] and a[1][0] == "local")(p.site_expr(s)[2][0])]
     obe = p.call_sites(r"ConnectionHandler>::on_behaviour_event$")
     ctx.floor("preload", "pending_outbound_responses.insert", ins, 1, exact=True)
     ctx.floor("preload", "handler.on_behaviour_event", obe, 1, exact=True)
+    CL = p.site_expr(ins[0])[2][0][1][1] if ins else None
+    ctx.ob("preload", "the pending set belongs to the new Connection", CL is not None and PN.r(p.init_expr(CL)) == "libp2p_request_response::Connection::new($4, $5)", msg=PN.r(p.init_expr(CL)) if CL is not None else "")
     for it in its:
-        src = render(p.site_expr(it)[2][0])
-        ctx.ob("preload", "queued requests are taken (HashMap::remove)", src == "std::collections::HashMap::remove(self.pending_outbound_requests, peer)@Some.0", it.loc(), src[:140])
+        src = PN.r(p.site_expr(it)[2][0])
+        ctx.ob("preload", "queued requests are taken (HashMap::remove)", bool(rm) and src == PN.site(rm[0]) + "@+", it.loc(), src[:140])
         lp = loop_of(p, it)
         if lp is None:
             ctx.ob("preload", "loop found", False, it.loc())
             continue
         per_element(ctx, "preload", "each queued request is tracked on the new connection", p, lp, lib.bbs(ins), "pending_outbound_responses.insert")
         per_element(ctx, "preload", "each queued request is handed to the new handler", p, lp, lib.bbs(obe), "handler.on_behaviour_event")
+        EL = elem_of(p, PN, lp)
+        for s in ins:
+            ctx.ob("preload", "tracked id is the queued request's id", PN.r(p.site_expr(s)[2][1]) == EL + "." + M_ID, s.loc(), PN.r(p.site_expr(s)[2][1])[-60:])
+        for s in obe:
+            a = p.site_expr(s)[2]
+            ctx.ob("preload", "the queued request itself is handed over", PN.r(a[0]) == "$2" and PN.r(a[1]) == EL, s.loc(), PN.r(a[1])[-60:])
     ctx.ob("preload", "floor:loop over the removed requests", len(its) == 1, nontrivial=False, msg="%d loops" % len(its))
     for s in rm:
-        some = [t for _, t in lib.switch_edges_on_site(p, s, {"Some"})]
+        some = P.targets(P.outcome_edges(p, P.is_call_at(s), True))
         got = lib.count_range(p, some, prets, lib.bbs(its)) if some else None
         ctx.ob("preload", "removed requests are always drained", got == (1, 1), s.loc(), "loop entered on the Some edge: %s" % (got,))
-    for s in ins:
-        ctx.ob("preload", "tracked id is the queued request's id", render(p.site_expr(s)[2][1]).endswith("Iterator>::next(iter)@Some.0.request_id"), s.loc(), render(p.site_expr(s)[2][1])[-60:])
-    for s in obe:
-        a = p.site_expr(s)[2]
-        ctx.ob("preload", "the queued request itself is handed over", render(a[0]) == "handler" and render(a[1]).endswith("Iterator>::next(iter)@Some.0"), s.loc(), render(a[1])[-60:])
-    cpush = [s for s in p.call_sites(r"SmallVec::push$|Vec::push$") if render(p.site_expr(s)) ==
-             "smallvec::SmallVec::push(std::collections::hash_map::Entry::or_default(std::collections::HashMap::entry(self.connected, peer)), connection)"]
+    cpush = [s for s in p.call_sites(r"SmallVec::push$|Vec::push$") if PN.site(s) ==
+             "smallvec::SmallVec::push(std::collections::hash_map::Entry::or_default(std::collections::HashMap::entry(%s, $3)), %%%s)" % (CONNECTED, CL)]
     got = lib.count_range(p, [0], prets, lib.bbs(cpush))
     ctx.ob("preload", "the connection (with its pending set) is registered on every path", got == (1, 1), cpush[0].loc() if cpush else "", "connected.entry(peer).or_default().push(connection): %s" % (got,))
     callers = prog.callers(RR, r"Behaviour::preload_new_handler$")
@@ -343,18 +412,17 @@ def check(ctx):
         got = lib.count_range(s.body, [0], s.body.return_blocks(), [s.bb])
         ctx.ob("preload", "%s preloads the new handler exactly once" % s.body.short.split("::")[-1], got == (1, 1), s.loc(), str(got))
 
-    # ================================================================= try_send_request / send_request_with_addresses
+    # ================================================================= try_send_request(self, peer = $2, request = $3)
     t = ctx.body(RR, r"^libp2p_request_response::Behaviour::try_send_request$")
-    ins = [s for s in t.call_sites(r"HashSet::insert$") if render(t.site_expr(s)[2][0]).endswith(".pending_outbound_responses")]
-    note = [s for s in t.call_sites(r"VecDeque::push_back$") if render(t.site_expr(s)[2][0]) == QUEUE and "ToSwarm::NotifyHandler{" in render(t.site_expr(s)[2][1])]
+    TN = P.Norm(t)
+    ins = [s for s in t.call_sites(r"HashSet::insert$") if (lambda a: a[0] == "field" and a[2] == SETS["outbound"])(t.site_expr(s)[2][0])]
+    note = [s for s in t.call_sites(r"VecDeque::push_back$") if TN.r(t.site_expr(s)[2][0]) == Q and [x for x in mir.walk(t.site_expr(s)[2][1]) if x[0] == "agg" and x[3] == "NotifyHandler"]]
     ctx.floor("try-send", "pending_outbound_responses.insert", ins, 1, exact=True)
     ctx.floor("try-send", "NotifyHandler push", note, 1, exact=True)
     n_none = n_some = 0
-    for dd in t.defs.get(0, []):
-        site = mir.Site(t, dd[1], dd[2])
-        e = t.site_expr(site)
+    for site, e in P.ret_exprs(t):
         if not (e[0] == "agg" and strip_generics(e[2]) == "std::option::Option"):
-            ctx.ob("try-send", "result is a literal Option", False, site.loc(), render(e)[:80])
+            ctx.ob("try-send", "result is a literal Option", False, site.loc(), TN.r(e)[:80])
             continue
         gi = lib.count_range(t, [0], [site.bb], lib.bbs(ins))
         gn = lib.count_range(t, [0], [site.bb], lib.bbs(note))
@@ -363,248 +431,253 @@ def check(ctx):
             ctx.ob("try-send", "None <=> id tracked and handler notified", gi == (1, 1) and gn == (1, 1), site.loc(), "on paths returning None: insert %s, NotifyHandler %s" % (gi, gn))
         else:
             n_some += 1
-            ctx.ob("try-send", "Some(request) <=> nothing tracked, nothing sent", gi == (0, 0) and gn == (0, 0) and render(dict(e[4])["0"]) == "request", site.loc(),
-                   "on paths returning Some: insert %s, NotifyHandler %s, payload %s" % (gi, gn, render(dict(e[4])["0"])))
+            ctx.ob("try-send", "Some(request) <=> nothing tracked, nothing sent", gi == (0, 0) and gn == (0, 0) and TN.r(dict(e[4])["0"]) == "$3", site.loc(),
+                   "on paths returning Some: insert %s, NotifyHandler %s, payload %s" % (gi, gn, TN.r(dict(e[4])["0"])))
     ctx.ob("try-send", "floor:result sites", n_none >= 1 and n_some >= 2, nontrivial=False, msg="None %d Some %d" % (n_none, n_some))
     for s in ins:
         e = t.site_expr(s)
-        conn = render(e[2][0])[:-len(".pending_outbound_responses")]
-        ctx.ob("try-send", "tracked id is the request's id", render(e[2][1]) == "request.request_id", s.loc(), render(e[2][1]))
-        for n in note:
-            r = render(t.site_expr(n)[2][1])
-            ctx.ob("try-send", "the notified handler is the connection that tracks the id", "handler: libp2p_swarm::NotifyHandler::One{0: %s.id}" % conn in r and r.endswith("event: request}") and "peer_id: peer," in r, n.loc(), r[-80:])
-        ctx.ob("try-send", "connection belongs to the target peer", "HashMap::get_mut(self.connected, peer)@Some.0" in conn, s.loc(), conn[:100])
+        conn = TN.r(e[2][0][1])
+        ctx.ob("try-send", "tracked id is the request's id", TN.r(e[2][1]) == "$3." + M_ID, s.loc(), TN.r(e[2][1]))
+        for n_ in note:
+            nh = [x for x in mir.walk(t.site_expr(n_)[2][1]) if x[0] == "agg" and x[3] == "NotifyHandler"][0]
+            f = {k: TN.r(v) for k, v in nh[4]}
+            ctx.ob("try-send", "the notified handler is the connection that tracks the id", f.get("handler") == "libp2p_swarm::NotifyHandler::One{0: %s.%s}" % (conn, C_ID) and f.get("event") == "$3" and f.get("peer_id") == "$2", n_.loc(), str(f)[-160:])
+        ctx.ob("try-send", "connection belongs to the target peer", "std::collections::HashMap::get_mut(%s, $2)@+" % CONNECTED in conn, s.loc(), conn[:100])
+    # ================================================================= send_request_with_addresses(self, peer = $2, request = $3, addresses = $4)
     sr = ctx.body(RR, r"^libp2p_request_response::Behaviour::send_request_with_addresses$")
+    SN = P.Norm(sr)
     srets = sr.return_blocks()
     ts = sr.call_sites(r"Behaviour::try_send_request$")
-    nid = sr.call_sites(r"Behaviour::next_outbound_request_id$")
+    nb = ctx.body(RR, r"^libp2p_request_response::Behaviour::next_outbound_request_id$")
+    nid = sr.call_sites("^" + re.escape(nb.npath) + "$")
     ctx.floor("send", "try_send_request call", ts, 1, exact=True)
     got = lib.count_range(sr, [0], srets, lib.bbs(nid))
-    ctx.ob("send", "one fresh id per request", got == (1, 1) and len(nid) == 1, nid[0].loc() if nid else "", "next_outbound_request_id calls on all paths: %s" % (got,))
-    dial = [s for s in sr.call_sites(r"VecDeque::push_back$") if render(sr.site_expr(s)[2][0]) == QUEUE and "ToSwarm::Dial{" in render(sr.site_expr(s)[2][1])]
-    qpush = [s for s in sr.call_sites(r"SmallVec::push$|Vec::push$") if "HashMap::entry(self.pending_outbound_requests, peer)" in render(sr.site_expr(s)[2][0])]
+    ctx.ob("send", "one fresh id per request", got == (1, 1) and len(nid) == 1, nid[0].loc() if nid else "", "fresh-id calls on all paths: %s" % (got,))
+    dial = [s for s in sr.call_sites(r"VecDeque::push_back$") if SN.r(sr.site_expr(s)[2][0]) == Q and [x for x in mir.walk(sr.site_expr(s)[2][1]) if x[0] == "agg" and x[3] == "Dial"]]
+    qpush = [s for s in sr.call_sites(r"SmallVec::push$|Vec::push$") if SN.r(sr.site_expr(s)[2][0]) == "std::collections::hash_map::Entry::or_default(std::collections::HashMap::entry(%s, $2))" % PENDREQ]
     for s in ts:
-        some = [x for _, x in lib.switch_edges_on_site(sr, s, {"Some"})]
-        none = [x for _, x in lib.switch_edges_on_site(sr, s, {"None"})]
+        some = P.targets(P.outcome_edges(sr, P.is_call_at(s), True))
+        none = P.targets(P.outcome_edges(sr, P.is_call_at(s), False))
         gq, gd = (lib.count_range(sr, some, srets, lib.bbs(qpush)), lib.count_range(sr, some, srets, lib.bbs(dial))) if some else (None, None)
         ctx.ob("send", "a request handed back is queued exactly once (with one dial)", gq == (1, 1) and gd == (1, 1), s.loc(), "Some edge: queue push %s, Dial %s" % (gq, gd))
         gq = lib.count_range(sr, none, srets, lib.bbs(qpush) + lib.bbs(dial)) if none else None
         ctx.ob("send", "a request already sent is not queued again", gq == (0, 0), s.loc(), "None edge: queue push / Dial %s" % (gq,))
-        a = render(sr.site_expr(s)[2][2])
-        ctx.ob("send", "the message carries the fresh id", "request_id: libp2p_request_response::Behaviour::next_outbound_request_id(self)" in a, s.loc(), a[:120])
-    for s in qpush:
-        ctx.ob("send", "the queued request is the one handed back", render(sr.site_expr(s)[2][1]).endswith("@Some.0") and "Behaviour::try_send_request(" in render(sr.site_expr(s)[2][1]) and
-               "Entry::or_default(" in render(sr.site_expr(s)[2][0]), s.loc(), "pending_outbound_requests.entry(peer).or_default().push(request)")
-    rd = sr.defs.get(0, [])
-    ctx.ob("send", "the returned id is the message's id", len(rd) == 1 and rd[0][0] == "stmt" and render(sr.rvalue_expr(rd[0][3])) == "libp2p_request_response::Behaviour::next_outbound_request_id(self)",
-           msg=str([render(sr.rvalue_expr(x[3])) for x in rd if x[0] == "stmt"]))
+        msg = sr.site_expr(s)[2][2]
+        mid = dict(msg[4]).get(M_ID) if msg[0] == "agg" else None
+        ctx.ob("send", "the message carries the fresh id", mid is not None and mid[0] == "call" and bool(nid) and mid[3] == nid[0].bb, s.loc(), SN.r(msg)[:120])
+        for q in qpush:
+            ctx.ob("send", "the queued request is the one handed back", SN.r(sr.site_expr(q)[2][1]) == SN.site(s) + "@+", q.loc(), "pending_outbound_requests.entry(peer).or_default().push(request)")
+    rd = [e for _, e in P.ret_exprs(sr)]
+    ctx.ob("send", "the returned id is the message's id", len(rd) == 1 and rd[0][0] == "call" and bool(nid) and rd[0][3] == nid[0].bb, msg=str([SN.r(x) for x in rd]))
 
     # ================================================================= ids
-    nb = ctx.body(RR, r"^libp2p_request_response::Behaviour::next_outbound_request_id$")
+    NB = P.Norm(nb)
     writers = {}
     for b in prog.bodies(RR):
-        for s in b.field_write_sites("next_outbound_request_id"):
+        for s in b.field_write_sites(F_NEXTOUT):
             writers.setdefault(b.npath, []).append(s)
     ctx.ob("ids", "outbound counter written only by its accessor", set(writers) == {nb.npath}, msg=str(sorted(writers)))
     ws = writers.get(nb.npath, [])
     for s in ws:
-        r = render(nb.site_expr(s))
-        ctx.ob("ids", "outbound counter advances by one", r == "AddWithOverflow(self.next_outbound_request_id.0, 1).0", s.loc(), r)
+        r = NB.site(s)
+        ctx.ob("ids", "outbound counter advances by one", r in ("AddWithOverflow(self.%s.0, 1).0" % F_NEXTOUT, "AddWithOverflow(1, self.%s.0).0" % F_NEXTOUT), s.loc(), r)
     rd = nb.defs.get(0, [])
     ok = False
     why = "return value is not a copy of the counter taken before the increment"
     if len(rd) == 1 and rd[0][0] == "stmt" and rd[0][3]["k"] == "use" and rd[0][3]["o"].get("k") in ("copy", "move") and "pr" not in rd[0][3]["o"]["p"] and len(ws) == 1:
         x = rd[0][3]["o"]["p"]["l"]
         xd = nb.defs.get(x, [])
-        if len(xd) == 1 and xd[0][0] == "stmt" and render(nb.rvalue_expr(xd[0][3])) == "self.next_outbound_request_id":
+        if len(xd) == 1 and xd[0][0] == "stmt" and NB.r(nb.rvalue_expr(xd[0][3])) == "self." + F_NEXTOUT:
             before = (xd[0][1] == ws[0].bb and xd[0][2] < ws[0].si) or (xd[0][1] != ws[0].bb and nb.dominates(xd[0][1], ws[0].bb))
             ok = before
             why = "copy at bb%d precedes the increment: %s" % (xd[0][1], before)
     ctx.ob("ids", "accessor returns the pre-increment value", ok, "%s:%d" % (nb.file, nb.line), why)
-    callers = prog.callers(RR, r"Behaviour::next_outbound_request_id$")
+    callers = prog.callers(RR, "^" + re.escape(nb.npath) + "$")
     ctx.ob("ids", "accessor called only when a request is created", {s.body.npath for s in callers} == {sr.npath}, msg=str(sorted({s.body.npath for s in callers})))
     aggs = {}
     for b in prog.bodies(RR):
         for s in b.agg_sites(r"^libp2p_request_response::(Out|In)boundRequestId$"):
             aggs.setdefault(strip_generics(s.stmt["r"]["adt"]).split("::")[-1], []).append(s)
     ob_ = aggs.get("OutboundRequestId", [])
-    ctx.ob("ids", "OutboundRequestId constructed only as the initial counter", len(ob_) == 1 and ob_[0].body.npath.endswith("Behaviour::with_codec") and render(ob_[0].body.site_expr(ob_[0])).endswith("{0: 1}"),
-           ob_[0].loc() if ob_ else "", str([(s.body.short, render(s.body.site_expr(s))[-40:]) for s in ob_]))
+    ctx.ob("ids", "OutboundRequestId constructed only as the initial counter", len(ob_) == 1 and ob_[0].body.npath.endswith("Behaviour::with_codec") and P.const_val(dict(ob_[0].body.site_expr(ob_[0])[4])["0"]) is not None,
+           ob_[0].loc() if ob_ else "", str([(s.body.short, P.nr(s.body, s.body.site_expr(s))[-40:]) for s in ob_]))
     ib = aggs.get("InboundRequestId", [])
-    ctx.ob("ids", "InboundRequestId constructed only from the shared atomic counter", len(ib) == 1 and ib[0].body.npath.endswith("handler::Handler::next_inbound_request_id") and
-           re.search(r"\{0: std::sync::atomic::Atomic(U64)?::fetch_add\(<std::sync::Arc as std::ops::Deref>::deref\(self\.inbound_request_id\), 1, ", render(ib[0].body.site_expr(ib[0]))) is not None,
-           ib[0].loc() if ib else "", str([(s.body.short, render(s.body.site_expr(s))[-120:]) for s in ib]))
+    ibs = [P.nr(s.body, s.body.site_expr(s)) for s in ib]
+    ctx.ob("ids", "InboundRequestId constructed only from the shared atomic counter", len(ib) == 1 and
+           re.search(r"\{0: std::sync::atomic::Atomic(U64)?::fetch_add\((<std::sync::Arc as std::ops::Deref>::deref\()?self\.%s\)?, 1, " % re.escape(H_INID), ibs[0]) is not None,
+           ib[0].loc() if ib else "", str([x[-120:] for x in ibs]))
+    fresh_in = ib[0].body if ib else None
+    hnew = ctx.body(RR, r"^libp2p_request_response::handler::Handler::new$")
+    hag = [x for _, e in P.ret_exprs(hnew) for x in mir.walk(e) if x[0] == "agg" and x[1] == "adt" and strip_generics(x[2]) == "libp2p_request_response::handler::Handler"]
+    idx = None
+    if len(hag) == 1:
+        v = dict(hag[0][4]).get(H_INID)
+        idx = v[1] if v is not None and v[0] == "arg" else None
+    ctx.ob("ids", "Handler stores the shared counter", idx is not None, msg="constructor argument #%s" % idx)
     hn = prog.callers(RR, r"handler::Handler::new$")
     ctx.floor("ids", "Handler::new call sites", hn, 2)
     for s in hn:
-        a = render(s.body.site_expr(s)[2][3])
-        ctx.ob("ids", "every handler shares the behaviour's inbound id counter", a == "<std::sync::Arc as std::clone::Clone>::clone(self.next_inbound_request_id)", s.loc(), a)
-    hnew = ctx.body(RR, r"^libp2p_request_response::handler::Handler::new$")
-    hs = [render(hnew.site_expr(s)) for s in hnew.agg_sites(r"handler::Handler$")]
-    ctx.ob("ids", "Handler stores the shared counter", len(hs) == 1 and "inbound_request_id: inbound_request_id" in hs[0], msg=hs[0][:200] if hs else "")
+        a = P.nr(s.body, s.body.site_expr(s)[2][idx - 1]) if idx else "?"
+        ctx.ob("ids", "every handler shares the behaviour's inbound id counter", a == "clone(self.%s)" % F_NEXTIN, s.loc(), a)
 
-    # ================================================================= Handler::poll
+    # ================================================================= Handler::poll(self, cx = $2)
     hp = ctx.body(RR, r"<handler::Handler as libp2p_swarm::ConnectionHandler>::poll$")
+    HN = P.Norm(hp)
     hrets = hp.return_blocks()
-    wp = hp.call_sites(r"FuturesMap::poll_unpin$")
-    ctx.floor("handler-poll", "worker_streams.poll_unpin", wp, 1, exact=True)
+    wp = [s for s in hp.call_sites(r"poll_unpin$|FuturesMap::poll$") if HN.r(hp.site_expr(s)[2][0]) == H_WORK]
+    ctx.floor("handler-poll", "worker_streams poll", wp, 1, exact=True)
+    WP = HN.site(wp[0]) if wp else "?"
     want = {("Inbound", "Ok", "Err"): "InboundStreamFailed", ("Outbound", "Ok", "Err"): "OutboundStreamFailed",
             ("Inbound", "Err", None): "InboundTimeout", ("Outbound", "Err", None): "OutboundTimeout"}
     rows = {}
     passthru = []
-    results = []
-    for dd in hp.defs.get(0, []):
-        if dd[0] != "stmt":
-            continue
-        site = mir.Site(hp, dd[1], dd[2])
-        e = hp.site_expr(site)
-        results.append((site, e))
-    ready_t = [t for _, t in lib.switch_edges_on_site(hp, wp[0], {"Ready"}, r"^discr\(futures_bounded::FuturesMap::poll_unpin\(self\.worker_streams, cx\)\)$")] if wp else []
+    results = P.ret_exprs(hp)
+    ready_t = P.targets(P.variant_edges(hp, P.is_call_at(wp[0]), {"Ready"})) if wp else []
+    pend_t = P.targets(P.variant_edges(hp, P.is_call_at(wp[0]), {"Pending"})) if wp else []
     ctx.ob("handler-poll", "floor:Ready edge of worker_streams", len(ready_t) == 1, nontrivial=False, msg=str(ready_t))
     inready = hp.reachable(ready_t) if ready_t else set()
-    res_in = [(s, e) for s, e in results if s.bb in inready and s.bb not in hp.reachable([t for _, t in lib.switch_edges_on_site(hp, wp[0], {"Pending"})] if wp else [])]
+    res_in = [(s, e) for s, e in results if s.bb in inready and s.bb not in hp.reachable(pend_t)]
     for s, e in res_in:
-        gs = hp.guards_on_all_paths(s.bb)
         who = outer = inner = None
-        for text, labels, _, cond in gs:
-            if not text.startswith("discr(") or "poll_unpin(" not in text:
+        for text, labels, _, cond in hp.guards_on_all_paths(s.bb):
+            if cond[0] != "discr" or len(labels) != 1:
                 continue
-            if len(labels) != 1:
-                continue
+            rc = HN.r(cond[1])
             lab = next(iter(labels))
-            if text.endswith("@Ready.0.0)"):
+            if rc == WP + "@Ready.0":
                 who = lab
-            elif text.endswith("@Ready.0.1)"):
+            elif rc == WP + "@Ready.1":
                 outer = lab
-            elif text.endswith("@Ready.0.1@Ok.0)"):
+            elif rc == WP + "@Ready.1@+":
                 inner = lab
-        o = outcome_of(e, HEV)
-        r = render(e)
+        o = outcome_of(HN, e, HEV)
+        r = HN.r(e)
         if o is None:
             passthru.append((s, who, outer, inner, r))
         else:
             rows[(who, outer, inner)] = (o, s, r)
     got = {k: v[0][0] for k, v in rows.items()}
     ctx.ob("handler-poll", "worker result table", got == want, wp[0].loc() if wp else "", "(kind, outer, inner) -> handler event: %s (expected %s)" % (got, want))
+    NOTIFY = "std::task::Poll::Ready{0: libp2p_swarm::ConnectionHandlerEvent::NotifyBehaviour{0: "
     for k, (o, s, r) in rows.items():
-        idsrc = "@Ready.0.0@%s.0" % k[0]
-        ctx.ob("handler-poll", "%s carries the id of the finished worker" % o[0], o[2] is not None and o[2].endswith(idsrc) and r.startswith("std::task::Poll::Ready{0: libp2p_swarm::ConnectionHandlerEvent::NotifyBehaviour{0: "), s.loc(), "request id %s" % o[2])
-    ctx.ob("handler-poll", "Ok(Ok(event)) is forwarded unchanged", len(passthru) == 1 and passthru[0][2:4] == ("Ok", "Ok") and
-           re.match(r"^std::task::Poll::Ready\{0: libp2p_swarm::ConnectionHandlerEvent::NotifyBehaviour\{0: .*@Ready\.0\.1@Ok\.0@Ok\.0\}\}$", passthru[0][4]) is not None,
+        ctx.ob("handler-poll", "%s carries the id of the finished worker" % o[0], o[2] == "%s@Ready.0@%s" % (WP, k[0]) and r.startswith(NOTIFY), s.loc(), "request id %s" % o[2])
+    ctx.ob("handler-poll", "Ok(Ok(event)) is forwarded unchanged", len(passthru) == 1 and passthru[0][2:4] == ("Ok", "Ok") and passthru[0][4] == NOTIFY + WP + "@Ready.1@+@+}}",
            passthru[0][0].loc() if passthru else "", str([(x[1], x[2], x[3], x[4][-60:]) for x in passthru]))
     if ready_t:
         got = lib.count_range(hp, ready_t, hrets, lib.bbs([s for s, _ in res_in]))
         ctx.ob("handler-poll", "every finished worker yields exactly one event", got == (1, 1), wp[0].loc(), "result assignments on every path from the Ready edge: %s" % (got,))
-    # queued events / inbound requests / outbound requests
-    for fld, what in (("pending_events", "queued event"), ("pending_outbound", "queued outbound request")):
-        pops = [s for s in hp.call_sites(r"VecDeque::pop_front$") if render(hp.site_expr(s)[2][0]) == "self." + fld]
-        ctx.floor("handler-poll", "pop_front of " + fld, pops, 1, exact=True)
+    for fld, kind in ((HQ, "events"), (H_POUT, "requests")):
+        pops = [s for s in hp.call_sites(r"VecDeque::pop_front$") if HN.r(hp.site_expr(s)[2][0]) == fld]
+        ctx.floor("handler-poll", "pop_front of queued " + kind, pops, 1, exact=True)
         for s in pops:
-            some = [t for _, t in lib.switch_edges_on_site(hp, s, {"Some"})]
+            some = P.targets(P.outcome_edges(hp, P.is_call_at(s), True))
             mine = [(rs, e) for rs, e in results if some and rs.bb in hp.reachable(some)]
-            popped = "std::collections::VecDeque::pop_front(self.%s)@Some.0" % fld
-            if fld == "pending_events":
-                ok = len(mine) == 1 and render(mine[0][1]) == "std::task::Poll::Ready{0: libp2p_swarm::ConnectionHandlerEvent::NotifyBehaviour{0: %s}}" % popped
-                ctx.ob("handler-poll", "a queued event is delivered unchanged", ok and lib.count_range(hp, some, hrets, [mine[0][0].bb]) == (1, 1), s.loc(), str([render(e)[-90:] for _, e in mine]))
+            popped = HN.site(s) + "@+"
+            if kind == "events":
+                ok = len(mine) == 1 and HN.r(mine[0][1]) == NOTIFY + popped + "}}"
+                ctx.ob("handler-poll", "a queued event is delivered unchanged", ok and lib.count_range(hp, some, hrets, [mine[0][0].bb]) == (1, 1), s.loc(), str([HN.r(e)[-90:] for _, e in mine]))
             else:
-                rq = [x for x in hp.call_sites(r"VecDeque::push_back$") if render(hp.site_expr(x)) == "std::collections::VecDeque::push_back(self.requested_outbound, %s)" % popped]
+                rq = [x for x in hp.call_sites(r"VecDeque::push_back$") if HN.site(x) == "std::collections::VecDeque::push_back(%s, %s)" % (H_REQ, popped)]
                 got = lib.count_range(hp, some, hrets, lib.bbs(rq)) if some else None
-                ok = len(mine) == 1 and "ConnectionHandlerEvent::OutboundSubstreamRequest{" in render(mine[0][1])
-                ctx.ob("handler-poll", "an outbound request moves to requested_outbound exactly when its substream is requested", ok and got == (1, 1), s.loc(), "requested_outbound.push_back(request) on the Some edge: %s" % (got,))
-    req = [(s, e) for s, e in results if (outcome_of(e, HEV) or (None,))[0] == "Request"]
-    ctx.ob("handler-poll", "an inbound request is reported with the id and sender received from its worker", len(req) == 1 and
-           re.search(r"request_id: .*inbound_receiver, cx\)@Ready\.0@Some\.0\.0, request: .*@Some\.0\.1, sender: .*@Some\.0\.2\}", render(req[0][1])) is not None,
-           req[0][0].loc() if req else "", render(req[0][1])[-200:] if req else "")
-    obev = ctx.body(RR, r"<handler::Handler as libp2p_swarm::ConnectionHandler>::on_behaviour_event$")
-    pb = [s for s in obev.call_sites(r"VecDeque::push_back$") if render(obev.site_expr(s)) == "std::collections::VecDeque::push_back(self.pending_outbound, request)"]
+                ok = len(mine) == 1 and [x for x in mir.walk(mine[0][1]) if x[0] == "agg" and x[3] == "OutboundSubstreamRequest"]
+                ctx.ob("handler-poll", "an outbound request moves to requested_outbound exactly when its substream is requested", bool(ok) and got == (1, 1), s.loc(), "requested_outbound.push_back(request) on the Some edge: %s" % (got,))
+    req = [(s, outcome_of(HN, e, HEV)) for s, e in results if (outcome_of(HN, e, HEV) or (None,))[0] == "Request"]
+    RCV = "futures::StreamExt::poll_next_unpin(%s, $2)@+@Ready" % H_RECV
+    ok = len(req) == 1 and req[0][1][2] == RCV + ".0"
+    if ok:
+        e = [e for s, e in results if s is req[0][0]][0]
+        f = [dict(x[4]) for x in mir.walk(e) if x[0] == "agg" and x[3] == "Request"][0]
+        ok = HN.r(f.get("sender", ("unknown", "?"))) == RCV + ".2" and HN.r(f.get("request", ("unknown", "?"))) == RCV + ".1"
+    ctx.ob("handler-poll", "an inbound request is reported with the id and sender received from its worker", ok, req[0][0].loc() if req else "", str(req[0][1][:3]) if req else "")
     ctx.ob("handler-poll", "on_behaviour_event queues the request once", lib.count_range(obev, [0], obev.return_blocks(), lib.bbs(pb)) == (1, 1), "%s:%d" % (obev.file, obev.line), "pending_outbound.push_back(request)")
 
     # ================================================================= dial upgrade error / try_push failure
     de = ctx.body(RR, r"^libp2p_request_response::handler::Handler::on_dial_upgrade_error$")
-    popped = "std::option::Option::expect(std::collections::VecDeque::pop_front(self.requested_outbound), 'negotiated a stream without a pending message')"
-    pops = [s for s in de.call_sites(r"VecDeque::pop_front$") if render(de.site_expr(s)[2][0]) == "self.requested_outbound"]
+    DE = P.Norm(de)
+    POPPED = "std::collections::VecDeque::pop_front(%s)@+" % H_REQ
+    pops = [s for s in de.call_sites(r"VecDeque::pop_front$") if DE.r(de.site_expr(s)[2][0]) == H_REQ]
     got = lib.count_range(de, [0], de.return_blocks(), lib.bbs(pops))
     ctx.ob("dial-upgrade-error", "the failed request is taken from requested_outbound exactly once", got == (1, 1), pops[0].loc() if pops else "", str(got))
-    dpush = queue_pushes(de, QUEUE, HEV)
+    dpush = queue_pushes(de, DE, HQ, HEV)
     ctx.floor("dial-upgrade-error", "handler events queued", dpush, 3)
     for arm, evn in (("Timeout", "OutboundTimeout"), ("NegotiationFailed", "OutboundUnsupportedProtocols"), ("Io", "OutboundStreamFailed")):
-        ents = lib.arm_entry(de, r"^discr\(arg2\.error\)$", arm)
+        ents = P.targets(P.variant_edges(de, lambda y: DE.r(y) == "$2.error", {arm}))
         if len(ents) != 1:
             ctx.ob("dial-upgrade-error", "%s -> %s" % (arm, evn), False, msg="arm not found")
             continue
-        mine = [(s, o) for s, o in dpush if s.bb in de.reachable([ents[0][1]])]
+        mine = [(s, o) for s, o in dpush if s.bb in de.reachable(ents)]
         right = [s for s, o in mine if o[0] == evn]
-        got = lib.count_range(de, [ents[0][1]], de.return_blocks(), lib.bbs(right))
-        gall = lib.count_range(de, [ents[0][1]], de.return_blocks(), lib.bbs([s for s, _ in dpush]))
+        got = lib.count_range(de, ents, de.return_blocks(), lib.bbs(right))
+        gall = lib.count_range(de, ents, de.return_blocks(), lib.bbs([s for s, _ in dpush]))
         ctx.ob("dial-upgrade-error", "%s -> %s" % (arm, evn), got == (1, 1) and gall == (1, 1), right[0].loc() if right else "", "%s pushes %s, all pushes %s" % (evn, got, gall))
         for s, o in mine:
-            ctx.ob("dial-upgrade-error", "%s: event carries the popped request's id" % arm, o[2] == popped + ".request_id", s.loc(), str(o[2])[-60:])
+            ctx.ob("dial-upgrade-error", "%s: event carries the popped request's id" % arm, o[2] == POPPED + "." + M_ID, s.loc(), str(o[2])[-60:])
     fo = ctx.body(RR, r"^libp2p_request_response::handler::Handler::on_fully_negotiated_outbound$")
+    FO = P.Norm(fo)
     forets = fo.return_blocks()
-    pops = [s for s in fo.call_sites(r"VecDeque::pop_front$") if render(fo.site_expr(s)[2][0]) == "self.requested_outbound"]
+    pops = [s for s in fo.call_sites(r"VecDeque::pop_front$") if FO.r(fo.site_expr(s)[2][0]) == H_REQ]
     got = lib.count_range(fo, [0], forets, lib.bbs(pops))
     ctx.ob("negotiated-outbound", "the negotiated request is taken from requested_outbound exactly once", got == (1, 1), pops[0].loc() if pops else "", str(got))
-    tp = fo.call_sites(r"FuturesMap::try_push$")
+    tp = [s for s in fo.call_sites(r"FuturesMap::try_push$") if FO.r(fo.site_expr(s)[2][0]) == H_WORK]
     ctx.floor("negotiated-outbound", "worker_streams.try_push", tp, 1, exact=True)
-    fpush = queue_pushes(fo, QUEUE, HEV)
-    mir.RENDER_MAX[0] = 30
-    try:
-        for s in tp:
-            e = fo.site_expr(s)
-            ctx.ob("negotiated-outbound", "worker is keyed by the popped request's id", render(e[2][1]) == "libp2p_request_response::handler::RequestId::Outbound{0: %s.request_id}" % popped, s.loc(), render(e[2][1])[-80:])
-            errs = set()
-            for bi in fo.live:
-                info = fo.switch_info(bi)
-                if info and render(info[0]).startswith("std::result::Result::is_err(futures_bounded::FuturesMap::try_push("):
-                    for tgt, ls in info[1].items():
-                        errs.add((tgt, tuple(sorted(ls))))
-            tt = [t for t, ls in errs if ls == ("true",)]
-            ft = [t for t, ls in errs if ls == ("false",)]
-            gt = lib.count_range(fo, tt, forets, lib.bbs([x for x, _ in fpush])) if tt else None
-            gf = lib.count_range(fo, ft, forets, lib.bbs([x for x, _ in fpush])) if ft else None
-            ctx.ob("negotiated-outbound", "a rejected worker yields exactly one OutboundStreamFailed, an accepted one none", gt == (1, 1) and gf == (0, 0) and [o[0] for _, o in fpush] == ["OutboundStreamFailed"], s.loc(),
-                   "is_err edge: %s, accepted edge: %s, events %s" % (gt, gf, [o[0] for _, o in fpush]))
-            cb = lib.closure_of(prog, fo, e)
-            oks = []
-            if cb is not None:
-                ctx.use(cb)
-                for dd in cb.defs.get(0, []):
-                    if dd[0] == "stmt":
-                        oks.append(render(cb.rvalue_expr(dd[3])))
-                cl_e = [x for x in mir.walk(e) if x[0] == "closure"][0]
-                ups = [render(u) for u in cl_e[2]]
-                ctx.ob("negotiated-outbound", "the worker captures the popped request's id", popped + ".request_id" in ups, s.loc(), str([u[-40:] for u in ups]))
-            ctx.ob("negotiated-outbound", "the worker's only success result is Response for the captured id", len(oks) == 1 and
-                   oks[0].startswith("std::result::Result::Ok{0: libp2p_request_response::handler::Event::Response{request_id: ^request_id, "), s.loc(), str([o[:110] for o in oks]))
-        for s, o in fpush:
-            ctx.ob("negotiated-outbound", "failure carries the popped request's id", o[2] == popped + ".request_id", s.loc(), str(o[2])[-60:])
-        # inbound worker
-        fi = ctx.body(RR, r"^libp2p_request_response::handler::Handler::on_fully_negotiated_inbound$")
-        tp = fi.call_sites(r"FuturesMap::try_push$")
-        ctx.floor("negotiated-inbound", "worker_streams.try_push", tp, 1, exact=True)
-        nidc = fi.call_sites(r"Handler::next_inbound_request_id$")
-        got = lib.count_range(fi, [0], fi.return_blocks(), lib.bbs(nidc))
-        ctx.ob("negotiated-inbound", "one fresh inbound id per stream", got == (1, 1) and len(nidc) == 1, nidc[0].loc() if nidc else "", str(got))
-        for s in tp:
-            e = fi.site_expr(s)
-            fresh = "libp2p_request_response::handler::Handler::next_inbound_request_id(self)"
-            ctx.ob("negotiated-inbound", "worker is keyed by the fresh id", render(e[2][1]) == "libp2p_request_response::handler::RequestId::Inbound{0: %s}" % fresh, s.loc(), render(e[2][1])[-90:])
-            cb = lib.closure_of(prog, fi, e)
-            oks, sends = [], []
-            if cb is not None:
-                ctx.use(cb)
-                for dd in cb.defs.get(0, []):
-                    if dd[0] == "stmt":
-                        oks.append(render(cb.rvalue_expr(dd[3])))
-                sends = [render(cb.site_expr(x)) for x in cb.call_sites(r"SinkExt::send$")]
-                cl_e = [x for x in mir.walk(e) if x[0] == "closure"][0]
-                ctx.ob("negotiated-inbound", "the worker captures the fresh id", fresh in [render(u) for u in cl_e[2]], s.loc(), "")
-            ctx.ob("negotiated-inbound", "the worker's success results are ResponseSent / ResponseOmission for the captured id",
-                   sorted(oks) == ["std::result::Result::Ok{0: libp2p_request_response::handler::Event::ResponseOmission{0: ^request_id}}",
-                                   "std::result::Result::Ok{0: libp2p_request_response::handler::Event::ResponseSent{0: ^request_id}}"], s.loc(), str(oks))
-            ctx.ob("negotiated-inbound", "the request is announced with the captured id", len(sends) == 1 and "tuple{0: ^request_id, " in sends[0], s.loc(), str([x[:160] for x in sends]))
-    finally:
-        mir.RENDER_MAX[0] = 14
+    fpush = queue_pushes(fo, FO, HQ, HEV)
+    for s in tp:
+        e = fo.site_expr(s)
+        ctx.ob("negotiated-outbound", "worker is keyed by the popped request's id", FO.r(e[2][1]) == "libp2p_request_response::handler::RequestId::Outbound{0: %s.%s}" % (POPPED, M_ID), s.loc(), FO.r(e[2][1])[-80:])
+        failed = P.truth_edges(fo, lambda y: P.call_is(y, r"Result::is_err$") and y[2][0][0] == "call" and y[2][0][3] == s.bb, True) | P.outcome_edges(fo, P.is_call_at(s), False) | \
+            P.truth_edges(fo, lambda y: P.call_is(y, r"Result::is_ok$") and y[2][0][0] == "call" and y[2][0][3] == s.bb, False)
+        accepted = P.truth_edges(fo, lambda y: P.call_is(y, r"Result::is_err$") and y[2][0][0] == "call" and y[2][0][3] == s.bb, False) | P.outcome_edges(fo, P.is_call_at(s), True) | \
+            P.truth_edges(fo, lambda y: P.call_is(y, r"Result::is_ok$") and y[2][0][0] == "call" and y[2][0][3] == s.bb, True)
+        gt = lib.count_range(fo, P.targets(failed), forets, lib.bbs([x for x, _ in fpush])) if failed else None
+        gf = lib.count_range(fo, P.targets(accepted), forets, lib.bbs([x for x, _ in fpush])) if accepted else None
+        ctx.ob("negotiated-outbound", "a rejected worker yields exactly one OutboundStreamFailed, an accepted one none", gt == (1, 1) and gf == (0, 0) and [o[0] for _, o in fpush] == ["OutboundStreamFailed"], s.loc(),
+               "rejected edge: %s, accepted edge: %s, events %s" % (gt, gf, [o[0] for _, o in fpush]))
+        cb, ups = P.upvar_sources(prog, fo, e)
+        oks = []
+        if cb is not None:
+            ctx.use(cb)
+            CB = P.Norm(cb)
+            upr = [FO.r(u) for u in ups]
+            want_id = POPPED + "." + M_ID
+            for _, x in P.ret_exprs(cb):
+                if x[0] == "agg" and x[3] == "Ok":
+                    o = outcome_of(CB, x, HEV)
+                    oks.append((o[0], upr[int(o[2][1:])] if o and o[2] and o[2][1:].isdigit() and int(o[2][1:]) < len(upr) else o[2]) if o else ("?", CB.r(x)[:60]))
+            ctx.ob("negotiated-outbound", "the worker's only success result is Response for the popped request's id", oks == [("Response", want_id)], s.loc(), str(oks))
+        else:
+            ctx.ob("negotiated-outbound", "the worker's only success result is Response for the popped request's id", False, s.loc(), "worker future not found")
+    for s, o in fpush:
+        ctx.ob("negotiated-outbound", "failure carries the popped request's id", o[2] == POPPED + "." + M_ID, s.loc(), str(o[2])[-60:])
+    # inbound worker
+    fi = ctx.body(RR, r"^libp2p_request_response::handler::Handler::on_fully_negotiated_inbound$")
+    FI = P.Norm(fi)
+    tp = [s for s in fi.call_sites(r"FuturesMap::try_push$") if FI.r(fi.site_expr(s)[2][0]) == H_WORK]
+    ctx.floor("negotiated-inbound", "worker_streams.try_push", tp, 1, exact=True)
+    nidc = fi.call_sites("^" + re.escape(fresh_in.npath) + "$") if fresh_in is not None else []
+    got = lib.count_range(fi, [0], fi.return_blocks(), lib.bbs(nidc))
+    ctx.ob("negotiated-inbound", "one fresh inbound id per stream", got == (1, 1) and len(nidc) == 1, nidc[0].loc() if nidc else "", str(got))
+    FRESH = FI.site(nidc[0]) if nidc else "?"
+    for s in tp:
+        e = fi.site_expr(s)
+        ctx.ob("negotiated-inbound", "worker is keyed by the fresh id", FI.r(e[2][1]) == "libp2p_request_response::handler::RequestId::Inbound{0: %s}" % FRESH, s.loc(), FI.r(e[2][1])[-90:])
+        cb, ups = P.upvar_sources(prog, fi, e)
+        oks, sends = [], []
+        if cb is not None:
+            ctx.use(cb)
+            CB = P.Norm(cb)
+            upr = [FI.r(u) for u in ups]
+
+            def up(txt):
+                return upr[int(txt[1:])] if txt and txt.startswith("^") and txt[1:].isdigit() and int(txt[1:]) < len(upr) else txt
+            for _, x in P.ret_exprs(cb):
+                if x[0] == "agg" and x[3] == "Ok":
+                    o = outcome_of(CB, x, HEV)
+                    oks.append((o[0], up(o[2])) if o else ("?", CB.r(x)[:60]))
+            for x in cb.call_sites(r"SinkExt::send$|Sender::try_send$|Sender::start_send$"):
+                pay = cb.site_expr(x)[2][1]
+                sends.append(up(CB.r(dict(pay[4])["0"])) if pay[0] == "agg" and pay[1] == "tuple" else CB.r(pay)[:60])
+        ctx.ob("negotiated-inbound", "the worker's success results are ResponseSent / ResponseOmission for the fresh id", sorted(oks) == [("ResponseOmission", FRESH), ("ResponseSent", FRESH)], s.loc(), str(oks))
+        ctx.ob("negotiated-inbound", "the request is announced with the fresh id", sends == [FRESH], s.loc(), str(sends))
 
 
 def _descendants(prog, b):
